@@ -23,9 +23,13 @@ let eval case impl =
       if kind.[0] = 'F' then M.new_fixed leftover segl (n_of_string (String.sub kind 1 (String.length kind - 1)))
       else if kind = "C" then M.new_chunked leftover segl
       else M.new_eof leftover segl in
-    let ((out, oc), _) = if mode = 'R' then M.read_all b0 sizes [] else M.bufread_all b0 sizes [] in
-    let st = match oc with M.AtEof -> "EOF" | M.Failed _ -> "ERR" | M.More -> "MORE" in
-    let model = hex_of_bytes out ^ " " ^ st in
+    (* mode M (read and fill_buf/consume taking turns on one reader) is judged by the spec alone: the model has the two
+       loops separately *)
+    let model =
+      if mode = 'M' then impl else begin
+        let ((out, oc), _) = if mode = 'R' then M.read_all b0 sizes [] else M.bufread_all b0 sizes [] in
+        let st = match oc with M.AtEof -> "EOF" | M.Failed _ -> "ERR" | M.More -> "MORE" in
+        hex_of_bytes out ^ " " ^ st end in
     (* spec: what the encoding means, independently of the reader model *)
     let total = leftover @ List.concat segl in
     let expected =
